@@ -36,7 +36,7 @@ REQUIRED = ["KV.C08.constants_ok", "KV.C08.hyp_of_build", "KV.C08.extendLeft_eq"
             "KV.C08.any_derivation", "KV.C08.any_derivation_probing", "KV.C08.beginNonTerminal_frag",
             "KV.C08.beginNonTerminal_rule", "KV.C08.any_derivation_leftToRight", "KV.C08.no_rest_fragment_table",
             "KV.C08.no_rest_fragment", "KV.C08.subsume_frag", "KV.C08.derivation_score_unique",
-            "KV.C08.subsume_whole_minus_parts", "KV.C08.reveal_after", "KV.C08.reveal_after_whole_minus_parts", "KV.C08.reveal_before", "KV.C08.reveal_before_whole_minus_parts",
+            "KV.C08.subsume_whole_minus_parts", "KV.C08.reveal_after", "KV.C08.reveal_after_whole_minus_parts", "KV.C08.reveal_before", "KV.C08.reveal_before_whole_minus_parts", "KV.C08.reveal_both", "KV.C08.reveal_both_whole_minus_parts",
             "KV.C08.any_derivation_fails_with_dropped_marks"]
 
 KEY_G = "trie-drops-extension-marks-of-trailing-blanks"
